@@ -16,7 +16,7 @@
    * The generator produces a fresh object for every use of a sub-pipeline, so the graph is a tree; the in-place mutation of
      `subsql.terms` by the SQL-level extend merge is modelled by returning the changed step as a value (Model/SqlMerge.v):
      nobody else holds a reference to a freshly generated `subsql`.
-   * `flags` says which of three repairs proposed by the C04 check are present in the code being modelled (the check reads
+   * `flags` says which of four repairs proposed by the C04 check are present in the code being modelled (the check reads
      them off the code's behaviour at run time): see Model/WithForm.v and Model/SqlMerge.v. *)
 From Coq Require Import List Bool Arith String Ascii.
 Import ListNotations.
@@ -43,10 +43,11 @@ Definition container := (nearsql * cinfo)%type.
 Record flags := mk_flags {
   f_none_key_uncached : bool;     (* to_with_form_stub keeps an ops_key of None as None (never cached) instead of the text "None" *)
   f_merge_rekeys : bool;          (* a merged extend takes the ops_key of the OUTER extend instead of keeping the inner one *)
-  f_merge_skips_missing : bool    (* the merge test skips dependency entries whose term was narrowed away (no KeyError) *)
+  f_merge_skips_missing : bool;   (* the merge test skips dependency entries whose term was narrowed away (no KeyError) *)
+  f_union_wraps_ordered : bool    (* a UNION ALL operand that ends in ORDER BY / LIMIT is written as SELECT * FROM ( ... ) name *)
 }.
-Definition code_as_found := mk_flags false false false.
-Definition code_repaired := mk_flags true true true.
+Definition code_as_found := mk_flags false false false false.
+Definition code_repaired := mk_flags true true true true.
 
 Definition qname (q : nearsql) : string :=
   match q with
